@@ -4,16 +4,20 @@ import itertools
 
 import boot  # noqa: F401
 from core import corr, oracle, hexs
-from lib.probes import sandwich, harvest_ints
+from lib.trees import to_line, to_node, from_node, to_json, from_json
+from lib.probes import sandwich, harvest_ints, harvest_strs
 from yowsup.layers.noise.layer_noise_segments import YowNoiseSegmentsLayer
 
 PID = "C05"
-GEN = []
-LEAN_MODULES = ["YowsupVerif.Props.C05"]
+GEN = ["tokendict"]
+LEAN_MODULES = ["YowsupVerif.Props.C05", "YowsupVerif.Props.Pipeline"]
 RULE = ("stream 'chunking': random sequences of non-empty frames (1 B..>64 KiB, sizes biased to 1,2,3,4,255,256,65535,65536 "
         "and to integer literals harvested from the current source ±1) cut at random points incl. inside the 3-byte header, "
         "optionally cut short in the middle of a frame; stream 'exhaustive' (thorough): every composition of a stream of at most "
         "N bytes into frames x every partition into chunks; stream 'send': payload sizes around every boundary incl. 2^24-1, 2^24, 2^24+1; "
+        "stream 'pipeline': 1-5 random stanza trees through the real coder layer and the real segment layer's send side, the written bytes cut at random points, "
+        "then the real segment layer's receive side and the real coder layer: the trees handed upward must be the trees sent (Props/Pipeline.lean), and every "
+        "delivered frame is decoded by the Lean coder model as well; "
         "stream 'zero': headers announcing zero-length frames (model validation only). Non-trivial/distinct = distinct (frame sizes, cut points, tail) tuple.")
 ASSUMPTIONS = ["CPython bytearray slicing/extend semantics", "struct.pack/unpack '>I'",
                "the lower layer delivers chunks sequentially (one network thread)"]
@@ -27,7 +31,10 @@ def be24(n):
 
 
 def setup(chk):
+    from lib.trees import Gen
     chk.lits = sorted(v for v in harvest_ints(SRC) if 0 <= v <= 1 << 26)
+    chk.gen = Gen(chk.rng, sorted(harvest_ints(["yowsup/layers/coder/encoder.py", "yowsup/layers/coder/decoder.py"])),
+                  sorted(harvest_strs(["yowsup/layers/coder/encoder.py", "yowsup/layers/coder/decoder.py"])))
 
 
 def _sizes(chk):
@@ -90,6 +97,9 @@ def cases(chk):
                 pos += 3 + len(f) // 2
             cuts = sorted(set(cuts + [c for c in hc if 0 < c < avail]))
         yield "chunking", {"frames": frames, "cuts": cuts, "tail": tail}
+    for _ in range(chk.scale(120, 3000)):
+        trees_ = [chk.gen.tree() for _i in range(r.randint(1, 5))]
+        yield "pipeline", {"trees": [to_json(t) for t in trees_], "cutseed": r.randrange(1 << 30), "ncuts": r.choice([0, 1, 2, 3, 5, 9, 17])}
     if not chk.quick():
         N = 11
         payload = itertools.count(1)
@@ -181,6 +191,58 @@ def run_case(chk, stream, case):
                                 "sent %d frames (sizes %s) cut at %s tail=%d: delivered sizes %s%s"
                                 % (len(frames), [len(f) for f in frames][:8], cuts[:12], tail, [len(d) for d in delivered][:8],
                                    "" if [len(d) for d in delivered] != [len(e) for e in expect] else " (content differs)")))
+    elif stream == "pipeline":
+        import random
+        from yowsup.layers.coder import YowCoderLayer
+        trees_ = [from_json(t) for t in case["trees"]]
+        coder_s = YowCoderLayer()
+        _st, cbottom, _ct = sandwich(coder_s)
+        seg_s, _s2, sbottom, _t2 = _mk(True)
+        sent = []
+        for t in trees_:
+            n0 = len(cbottom.sent)
+            try:
+                coder_s.send(to_node(t))
+            except Exception:
+                if coder_s.lock.locked():
+                    coder_s.lock.release()
+                continue                     # not encodable: C01's subject
+            if len(cbottom.sent) != n0 + 1:
+                continue
+            seg_s.send(bytes(cbottom.sent[-1]))
+            sent.append(t)
+        data = b"".join(bytes(w) for w in sbottom.sent)
+        rr = random.Random(case["cutseed"])
+        cuts = sorted(set(rr.randint(1, max(1, len(data) - 1)) for _ in range(case["ncuts"]))) if len(data) > 1 else []
+        seg_r, _s3, _b3, top_r = _mk(True)
+        coder_r = YowCoderLayer()
+        _s4, _b4, ctop = sandwich(coder_r)
+        chk.driver.ask("seg reset 1")
+        frames = _feed(chk, seg_r, top_r, _chunks(data, cuts), fails, "pipeline")
+        got = []
+        for f in frames:
+            try:
+                coder_r.receive(f)
+            except Exception as e:
+                got.append("raised %s" % type(e).__name__)
+        lines = []
+        for x in ctop.received:
+            try:
+                lines.append(to_line(from_node(x)))
+            except Exception as e:
+                lines.append("unreadable %s" % type(e).__name__)
+        want = [to_line(t) for t in sent]
+        chk.hit("pipeline:stanzas=%d" % len(sent), "pipeline:chunks=%d" % min(9, len(cuts) + 1))
+        if lines != want or got:
+            i = next((i for i, (a, b) in enumerate(zip(lines, want)) if a != b), min(len(lines), len(want)))
+            fails.append(oracle("C05:pipeline-stanzas-differ", "%d stanzas sent through coder + segments, stream of %d bytes cut at %s: %d stanzas came up%s; first difference at #%d: sent %s got %s"
+                                % (len(want), len(data), cuts[:10], len(lines), (" (" + ", ".join(got[:2]) + ")") if got else "", i,
+                                   want[i][:120] if i < len(want) else "-", lines[i][:120] if i < len(lines) else "-")))
+        for f, w in zip(frames, want):
+            out = chk.driver.ask("coder dec %s" % hexs(f))
+            if out != "ok " + w:
+                fails.append(corr("pipeline:model-decode", "frame %s…: model decodes to %s, sent %s" % (hexs(f)[:60], out[:120], w[:120])))
+                break
     elif stream == "zero" or stream == "disabled":
         en = stream == "zero"
         layer, _stack, _bottom, top = _mk(en)
